@@ -176,6 +176,11 @@ func c17first4(addrs []string) (first string, firstIs4 bool, any4 string) {
 
 // c17reference: the accepted answers (empty + mayErr => must fail; both => either).
 func c17reference(w c17world, target string, f c17flags) (accept []c17answer, mayErr bool, note string) {
+	if f.srcip != "" && net.ParseIP(f.srcip).To4() == nil {
+		// --srcip overrides the automatic choice, and an IPv6 address is not a usable IPv4 source: the scan
+		// must fail and send nothing
+		return nil, true, "--srcip is not an IPv4 address"
+	}
 	var tnet *net.IPNet
 	if target != "" {
 		if !strings.Contains(target, "/") {
@@ -290,7 +295,7 @@ func verifC17(c *drv.Ctx) {
 		kind string
 	}{{"tcp-syn", []string{"tcp", "syn", "-p", "80"}, "tcp"}, {"icmp", []string{"icmp"}, "icmp"}, {"arp", []string{"arp"}, "arp"}, {"udp", []string{"udp", "-p", "53"}, "udp"}}
 	c.R.Rule = "host configurations = 14 interface sets (one or two Ethernet interfaces and a MAC-less tunnel, one or two addresses each in both orders, overlapping subnets on one and on two interfaces, an IPv6 address listed first, no IPv4 address, no address) x every applicable default-route set of 12 (none, one, two with different metrics in both dump orders, equal metrics, via the tunnel, metric 0, with a preferred-source attribute); " +
-		"targets {on-link host, on-link /24 of the second address, host inside the /16 only, /20 wider than a /24 that holds its base, off-link host, tunnel subnet, none (file mode)} x --iface {absent, each interface} x --srcip {absent, 1.2.3.4} x --srcmac {absent, given}; command tcp syn for all, icmp/arp/udp for the flag-less and --iface cases (quick: every third world for those). " +
+		"targets {on-link host, on-link /24 of the second address, host inside the /16 only, /20 wider than a /24 that holds its base, off-link host, tunnel subnet, none (file mode)} x --iface {absent, each interface} x --srcip {absent, 1.2.3.4, an IPv6 address (must be refused)} x --srcmac {absent, given}; command tcp syn for all, icmp/arp/udp for the flag-less and --iface cases (quick: every third world for those). " +
 		"One end-to-end run of the real command each; observed: interface the socket is opened on, source MAC/IP and framing of the frame on the wire, or the error. Reference: table-driven reading of the statement with open ties (two attached interfaces, equal metrics, partial containment, IPv6 listed first, --srcmac on a MAC-less interface) accepted either way. non-trivial = configuration in which at least one answer is acceptable (not only failure)"
 	idx := 0
 	wi := 0
@@ -311,7 +316,7 @@ func verifC17(c *drv.Ctx) {
 						continue
 					}
 					for _, fi := range append([]string{""}, ifnames...) {
-						for _, fs := range []string{"", "1.2.3.4"} {
+						for _, fs := range []string{"", "1.2.3.4", "2001:db8::5"} {
 							for _, fm := range []string{"", "02:aa:bb:cc:dd:ee"} {
 								if ci > 0 && (fs != "" || fm != "") {
 									continue
